@@ -6,6 +6,7 @@ The preconditions are what the Cython asserts and the Python allocations establi
 wrapper obligations over the generated `PyxSpec`).
 -/
 import HydroVerif.Lemmas.C05
+import HydroVerif.Lemmas.C05Wrap
 
 namespace HydroVerif.C05
 
@@ -602,4 +603,394 @@ theorem intersect_safe (e : Ext) (nrows ncols nval : Int) (f : Nat → XInt × X
     cases x with
     | inr x => exact nomatch x
     | inl s => wp_lin
+/-! ## wrapper obligations
+
+For every Cython wrapper `f` the generated `PyxSpec.f` gives the shapes, the integer scalars, the `assert`
+lines and the actual arguments of the kernel call. Each theorem below derives the kernel's precondition from
+the asserts (plus, where the asserts do not suffice, the hand-written `PyAlloc_f` of `Lemmas/C05Wrap.lean` —
+what the Python wrapper establishes — and the explicit size assumptions `intFit` / `NumpySize` / the 32-bit
+products of the `int` kernels), and concludes that the footprint model, run with the extents of the buffers
+actually handed over, is safe for all contents. A weakened or deleted assert in the `.pyx` makes the
+corresponding `asserts` weaker and the proof fail. -/
+section wrappers
+open HydroVerif.Generated PyxSpec
+
+macro "wrap_arith" : tactic =>
+  `(tactic| first | omega | (push_cast; omega) | (push_cast; nlinarith) | (push_cast; ring_nf; omega) | (push_cast at *; nlinarith))
+
+theorem aggregate_wrapper (s : aggregate.Shapes) (v : aggregate.Scalars) (ha : aggregate.asserts s v)
+    (idx : Nat → Int) :
+    Safe (C05.aggregate (ext_aggregate (aggregate.call s v)) (aggregate.call s v).nval idx) := by
+  unfold aggregate.asserts at ha
+  apply aggregate_safe <;> simp [ext_aggregate, aggregate.call] <;> wrap_arith
+
+theorem flathomogen_wrapper (s : flathomogen.Shapes) (v : flathomogen.Scalars) (ha : flathomogen.asserts s v)
+    (idx : Nat → Int) :
+    Safe (C05.flathomogen (ext_flathomogen (flathomogen.call s v)) (flathomogen.call s v).nval idx) := by
+  unfold flathomogen.asserts at ha
+  apply flathomogen_safe <;> simp [ext_flathomogen, flathomogen.call] <;> wrap_arith
+
+theorem islin_wrapper (s : islin.Shapes) (v : islin.Scalars) (ha : islin.asserts s v) (lin : Nat → Bool) :
+    Safe (C05.islin (ext_islin (islin.call s v)) (islin.call s v).nval (islin.call s v).npoints lin) := by
+  unfold islin.asserts at ha
+  apply islin_safe <;> simp [ext_islin, islin.call] <;> wrap_arith
+
+theorem eckhardt_wrapper (s : eckhardt.Shapes) (v : eckhardt.Scalars) (ha : eckhardt.asserts s v) (bad : Bool) :
+    Safe (C05.eckhardt (ext_eckhardt (eckhardt.call s v)) (eckhardt.call s v).nval bad) := by
+  unfold eckhardt.asserts at ha
+  apply eckhardt_safe <;> simp [ext_eckhardt, eckhardt.call] <;> wrap_arith
+
+theorem var2h_wrapper (s : var2h.Shapes) (v : var2h.Scalars) (ha : var2h.asserts s v)
+    (hf : var2h.intFit s v) (hp : PyAlloc_var2h v) (sec : Nat → Int) :
+    Safe (C05.var2h (ext_var2h (var2h.call s v)) (var2h.call s v).nvalvar (var2h.call s v).nvalh
+      (var2h.call s v).nbsec_per_period (var2h.call s v).rainfall (var2h.call s v).hstartsec sec) := by
+  unfold var2h.asserts at ha
+  unfold var2h.intFit at hf
+  unfold PyAlloc_var2h at hp
+  apply var2h_safe <;> simp [ext_var2h, var2h.call] <;> wrap_arith
+
+theorem add1month_wrapper (s : add1month.Shapes) (v : add1month.Scalars) (ha : add1month.asserts s v)
+    (d : Nat → Int) (hd : ∀ k, I32 (d k)) :
+    Safe (C05.add1month (ext_add1month (add1month.call s v)) d) := by
+  unfold add1month.asserts at ha
+  apply add1month_safe _ _ _ hd; simp [ext_add1month, add1month.call]; wrap_arith
+
+theorem add1day_wrapper (s : add1day.Shapes) (v : add1day.Scalars) (ha : add1day.asserts s v)
+    (d : Nat → Int) (hd : ∀ k, I32 (d k)) :
+    Safe (C05.add1day (ext_add1day (add1day.call s v)) d) := by
+  unfold add1day.asserts at ha
+  apply add1day_safe _ _ _ hd; simp [ext_add1day, add1day.call]; wrap_arith
+
+theorem comparedates_wrapper (s : comparedates.Shapes) (v : comparedates.Scalars)
+    (ha : comparedates.asserts s v) (a b : Nat → Int) :
+    Safe (C05.comparedates (ext_comparedates (comparedates.call s v)) a b) := by
+  unfold comparedates.asserts at ha
+  apply comparedates_safe <;> simp [ext_comparedates, comparedates.call] <;> wrap_arith
+
+theorem getdate_wrapper (s : getdate.Shapes) (v : getdate.Scalars) (ha : getdate.asserts s v)
+    (d4 d2 d0 : Int) (h0 : -2147483648 < d0 ∧ d0 < 2147483648) (h4 : -214748 ≤ d4 ∧ d4 ≤ 214748)
+    (h42 : -101 ≤ d2 - d4 * 100 ∧ d2 - d4 * 100 ≤ 101)
+    (h40 : -10001 ≤ d0 - d4 * 10000 ∧ d0 - d4 * 10000 ≤ 10001) (inrange : Bool) :
+    Safe (C05.getdate (ext_getdate (getdate.call s v)) inrange (some d4) (some d2) (some d0)) := by
+  unfold getdate.asserts at ha
+  apply getdate_safe _ _ _ _ _ h0 h4 h42 h40; simp [ext_getdate, getdate.call]; wrap_arith
+
+theorem combi_wrapper (s : combi.Shapes) (v : combi.Scalars) (hr : combi.scalarRange v) :
+    Safe (C05.combi (combi.call s v).n (combi.call s v).k) := by
+  unfold combi.scalarRange FitsI32 at hr
+  exact combi_safe _ _ hr.1
+theorem armodel_sim_wrapper (s : armodel_sim.Shapes) (v : armodel_sim.Scalars) (ha : armodel_sim.asserts s v)
+    (pnan : Nat → Bool) (bad : Bool) :
+    Safe (armodelSim (ext_armodel_sim (armodel_sim.call s v)) (armodel_sim.call s v).nval
+      (armodel_sim.call s v).nparams pnan bad) := by
+  unfold armodel_sim.asserts at ha
+  apply armodelSim_safe <;> simp [ext_armodel_sim, armodel_sim.call] <;> wrap_arith
+
+theorem armodel_residual_wrapper (s : armodel_residual.Shapes) (v : armodel_residual.Scalars)
+    (ha : armodel_residual.asserts s v) (pnan : Nat → Bool) (bad : Bool) (xnan : Nat → Bool) :
+    Safe (armodelResidual (ext_armodel_residual (armodel_residual.call s v)) (armodel_residual.call s v).nval
+      (armodel_residual.call s v).nparams pnan bad xnan) := by
+  unfold armodel_residual.asserts at ha
+  apply armodelResidual_safe <;> simp [ext_armodel_residual, armodel_residual.call] <;> wrap_arith
+
+theorem crps_wrapper (s : crps.Shapes) (v : crps.Scalars) (ha : crps.asserts s v) (hp : PyAlloc_crps s v)
+    (h32 : (s.sim_1 : Int) * s.sim_0 ≤ 2147483647) (h33 : ((s.sim_1 : Int) + 1) * 7 ≤ 2147483647)
+    (unsorted : Nat → Nat → Bool) :
+    Safe (C05.crps (ext_crps (crps.call s v)) (crps.call s v).nval (crps.call s v).ncol
+      (crps.call s v).use_weights unsorted) := by
+  unfold crps.asserts at ha
+  unfold PyAlloc_crps at hp
+  obtain ⟨a1, a2, a3, a4⟩ := ha
+  obtain ⟨p1, p2, p3⟩ := hp
+  apply crps_safe <;> simp only [ext_crps, crps.call]
+  · omega
+  · omega
+  · push_cast; nlinarith
+  · intro h; omega
+  · push_cast; rw [a3, a4]
+  · omega
+  · exact h32
+  · exact h33
+
+theorem ensrank_wrapper (s : ensrank.Shapes) (v : ensrank.Scalars) (ha : ensrank.asserts s v)
+    (h32 : (s.sim_1 : Int) * s.sim_0 ≤ 2147483647) (h33 : (s.sim_0 : Int) * s.sim_0 ≤ 2147483647)
+    (h34 : 2 * (s.sim_1 : Int) ≤ 2147483647) (badeps : Bool) :
+    Safe (C05.ensrank (ext_ensrank (ensrank.call s v)) (ensrank.call s v).nval (ensrank.call s v).ncol badeps) := by
+  unfold ensrank.asserts at ha
+  obtain ⟨a1, a2, a3⟩ := ha
+  apply ensrank_safe <;> simp only [ext_ensrank, ensrank.call]
+  · push_cast; nlinarith
+  · push_cast; rw [← a2, ← a3]
+  · omega
+  · exact h32
+  · exact h33
+  · exact h34
+
+theorem ad_test_wrapper (s : ad_test.Shapes) (v : ad_test.Scalars) (ha : ad_test.asserts s v) (bad : Nat → Bool) :
+    Safe (adTest (ext_ad_test (ad_test.call s v)) (ad_test.call s v).nval bad) := by
+  unfold ad_test.asserts at ha
+  apply adTest_safe <;> simp [ext_ad_test, ad_test.call] <;> wrap_arith
+
+theorem pareto_front_wrapper (s : pareto_front.Shapes) (v : pareto_front.Scalars) (ha : pareto_front.asserts s v)
+    (h32 : (s.data_1 : Int) * s.data_0 ≤ 2147483647) (dom : Nat → Nat → Bool) :
+    Safe (paretofront (ext_paretofront (pareto_front.call s v)) (pareto_front.call s v).nval
+      (pareto_front.call s v).ncol dom) := by
+  unfold pareto_front.asserts at ha
+  apply paretofront_safe <;> simp only [ext_paretofront, pareto_front.call]
+  · omega
+  · push_cast; nlinarith
+  · omega
+  · exact h32
+
+theorem olsleverage_wrapper (s : olsleverage.Shapes) (v : olsleverage.Scalars) (ha : olsleverage.asserts s v)
+    (h32 : (s.predictors_1 : Int) * s.predictors_0 ≤ 2147483647)
+    (h33 : (s.predictors_1 : Int) * s.predictors_1 ≤ 2147483647) :
+    Safe (C05.olsleverage (ext_olsleverage (olsleverage.call s v)) (olsleverage.call s v).nval
+      (olsleverage.call s v).npreds) := by
+  unfold olsleverage.asserts at ha
+  obtain ⟨a1, a2, a3⟩ := ha
+  apply olsleverage_safe <;> simp only [ext_olsleverage, olsleverage.call]
+  · omega
+  · push_cast; nlinarith
+  · push_cast; rw [a3, ← a2]
+  · omega
+  · exact h32
+  · exact h33
+
+theorem coord2cell_wrapper (s : coord2cell.Shapes) (v : coord2cell.Scalars) (ha : coord2cell.asserts s v)
+    (hp : PyAlloc_coord2cell s v) (fx fy : Nat → XInt) :
+    Safe (C05.coord2cell (ext_coord2cell (coord2cell.call s v)) (coord2cell.call s v).nrows
+      (coord2cell.call s v).ncols (coord2cell.call s v).nval fx fy) := by
+  unfold coord2cell.asserts at ha
+  obtain ⟨p1, p2, p3, p4⟩ := hp
+  apply coord2cell_safe <;> simp only [ext_coord2cell, coord2cell.call]
+  · exact p4
+  · rw [p1]; push_cast; omega
+  · omega
+
+theorem cell2coord_wrapper (s : cell2coord.Shapes) (v : cell2coord.Scalars) (ha : cell2coord.asserts s v)
+    (hp : PyAlloc_grid v.nrows v.ncols) (cells : Nat → Int) :
+    Safe (C05.cell2coord (ext_cell2coord (cell2coord.call s v)) (cell2coord.call s v).nrows
+      (cell2coord.call s v).ncols (cell2coord.call s v).nval cells) := by
+  unfold cell2coord.asserts at ha
+  obtain ⟨p1, p2, p3⟩ := hp
+  obtain ⟨a1, a2⟩ := ha
+  apply cell2coord_safe <;> simp only [ext_cell2coord, cell2coord.call]
+  · exact p1
+  · exact p2
+  · exact p3
+  · omega
+  · push_cast; rw [a2]; omega
+
+theorem cell2rowcol_wrapper (s : cell2rowcol.Shapes) (v : cell2rowcol.Scalars) (ha : cell2rowcol.asserts s v)
+    (hp : PyAlloc_grid v.nrows v.ncols) (cells : Nat → Int) :
+    Safe (C05.cell2rowcol (ext_cell2rowcol (cell2rowcol.call s v)) (cell2rowcol.call s v).nrows
+      (cell2rowcol.call s v).ncols (cell2rowcol.call s v).nval cells) := by
+  unfold cell2rowcol.asserts at ha
+  obtain ⟨p1, p2, p3⟩ := hp
+  obtain ⟨a1, a2⟩ := ha
+  apply cell2rowcol_safe <;> simp only [ext_cell2rowcol, cell2rowcol.call]
+  · exact p1
+  · exact p2
+  · exact p3
+  · omega
+  · push_cast; rw [a2]; omega
+
+theorem neighbours_wrapper (s : neighbours.Shapes) (v : neighbours.Scalars) (ha : neighbours.asserts s v)
+    (hp : PyAlloc_grid v.nrows v.ncols) :
+    Safe (C05.neighbours (ext_neighbours (neighbours.call s v)) (neighbours.call s v).nrows
+      (neighbours.call s v).ncols (neighbours.call s v).idxcell) := by
+  unfold neighbours.asserts at ha
+  obtain ⟨p1, p2, p3⟩ := hp
+  apply neighbours_safe <;> simp only [ext_neighbours, neighbours.call]
+  · exact p1
+  · exact p2
+  · exact p3
+  · omega
+
+theorem slice_wrapper (s : slice'.Shapes) (v : slice'.Scalars) (ha : slice'.asserts s v)
+    (hp : PyAlloc_slice s) (f1 f2 f3 : Nat → XInt × XInt) :
+    Safe (C05.slice (ext_slice (slice'.call s v)) (slice'.call s v).nrows (slice'.call s v).ncols
+      (slice'.call s v).nval f1 f2 f3) := by
+  unfold slice'.asserts at ha
+  obtain ⟨p1, p2⟩ := hp
+  unfold NumpySize at p2
+  apply slice_safe <;> simp only [ext_slice, slice'.call]
+  · exact p2
+  · push_cast; omega
+  · push_cast; rw [ha]; omega
+  · omega
+theorem upstream_wrapper (s : upstream.Shapes) (v : upstream.Scalars) (ha : upstream.asserts s v)
+    (hn : NumpySize s.flowdir_0 s.flowdir_1) (code fdir cells : Nat → Int) :
+    Safe (C05.upstream (ext_upstream (upstream.call s v)) (upstream.call s v).nrows (upstream.call s v).ncols
+      (upstream.call s v).nval code fdir cells) := by
+  unfold upstream.asserts at ha
+  unfold NumpySize at hn
+  obtain ⟨a1, a2, a3, a4⟩ := ha
+  apply upstream_safe <;> simp only [ext_upstream, upstream.call]
+  · omega
+  · omega
+  · exact hn
+  · push_cast; omega
+  · have e0 : s.flowdircode_0 = 3 := by omega
+    have e1 : s.flowdircode_1 = 3 := by omega
+    rw [e0, e1]
+  · omega
+  · push_cast; rw [a2]; omega
+
+theorem downstream_wrapper (s : downstream.Shapes) (v : downstream.Scalars) (ha : downstream.asserts s v)
+    (hn : NumpySize s.flowdir_0 s.flowdir_1) (code fdir cells : Nat → Int) :
+    Safe (C05.downstream (ext_downstream (downstream.call s v)) (downstream.call s v).nrows
+      (downstream.call s v).ncols (downstream.call s v).nval code fdir cells) := by
+  unfold downstream.asserts at ha
+  unfold NumpySize at hn
+  obtain ⟨a1, a2, a3⟩ := ha
+  apply downstream_safe <;> simp only [ext_downstream, downstream.call]
+  · omega
+  · omega
+  · exact hn
+  · push_cast; omega
+  · have e0 : s.flowdircode_0 = 3 := by omega
+    have e1 : s.flowdircode_1 = 3 := by omega
+    rw [e0, e1]
+  · omega
+  · omega
+
+theorem accumulate_wrapper (s : accumulate.Shapes) (v : accumulate.Scalars) (ha : accumulate.asserts s v)
+    (hn : NumpySize s.flowdir_0 s.flowdir_1) (code fdir : Nat → Int) :
+    Safe (C05.accumulate (ext_accumulate (accumulate.call s v)) (accumulate.call s v).nrows
+      (accumulate.call s v).ncols (accumulate.call s v).nprint (accumulate.call s v).max_accumulated_cells
+      code fdir) := by
+  unfold accumulate.asserts at ha
+  unfold NumpySize at hn
+  obtain ⟨a1, a2, a3, a4, a5, a6⟩ := ha
+  apply accumulate_safe <;> simp only [ext_accumulate, accumulate.call]
+  · omega
+  · exact hn
+  · push_cast; omega
+  · have e0 : s.flowdircode_0 = 3 := by omega
+    have e1 : s.flowdircode_1 = 3 := by omega
+    rw [e0, e1]
+  · push_cast; rw [a3, a4]
+  · push_cast; rw [a5, a6]
+
+theorem slope_wrapper (s : slope.Shapes) (v : slope.Scalars) (ha : slope.asserts s v)
+    (hn : NumpySize s.flowdir_0 s.flowdir_1) (code fdir : Nat → Int) :
+    Safe (C05.slope (ext_slope (slope.call s v)) (slope.call s v).nrows (slope.call s v).ncols
+      (slope.call s v).nprint code fdir) := by
+  unfold slope.asserts at ha
+  unfold NumpySize at hn
+  obtain ⟨a1, a2, a3, a4, a5, a6⟩ := ha
+  apply slope_safe <;> simp only [ext_slope, slope.call]
+  · omega
+  · exact hn
+  · push_cast; omega
+  · have e0 : s.flowdircode_0 = 3 := by omega
+    have e1 : s.flowdircode_1 = 3 := by omega
+    rw [e0, e1]
+  · push_cast; rw [a3, a4]
+  · push_cast; rw [a5, a6]
+
+theorem intersect_wrapper (s : intersect.Shapes) (v : intersect.Scalars) (ha : intersect.asserts s v)
+    (hp : PyAlloc_intersect s v) (f : Nat → XInt × XInt) :
+    Safe (C05.intersect (ext_intersect (intersect.call s v)) (intersect.call s v).nrows
+      (intersect.call s v).ncols (intersect.call s v).nval f) := by
+  unfold intersect.asserts at ha
+  obtain ⟨a1, a2, a3⟩ := ha
+  obtain ⟨p1, p2, p3, p4⟩ := hp
+  apply intersect_safe <;> simp only [ext_intersect, intersect.call]
+  · exact p1
+  · exact p2
+  · exact p3
+  · push_cast; rw [a1]; omega
+  · omega
+  · omega
+  · omega
+
+theorem voronoi_wrapper (s : voronoi.Shapes) (v : voronoi.Scalars) (ha : voronoi.asserts s v)
+    (cells : Nat → Int) (closer : Nat → Nat → Bool) :
+    Safe (C05.voronoi (ext_voronoi (voronoi.call s v)) (voronoi.call s v).nrows (voronoi.call s v).ncols
+      (voronoi.call s v).ncells (voronoi.call s v).npoints cells closer) := by
+  unfold voronoi.asserts at ha
+  obtain ⟨a1, a2⟩ := ha
+  apply voronoi_safe <;> simp only [ext_voronoi, voronoi.call]
+  · omega
+  · push_cast; rw [a1]; omega
+  · omega
+
+theorem points_inside_polygon_wrapper (s : points_inside_polygon.Shapes) (v : points_inside_polygon.Scalars)
+    (ha : points_inside_polygon.asserts s v) (hr : points_inside_polygon.reductions s)
+    (h32 : 2 * (s.points_0 : Int) ≤ 2147483647) (h33 : 2 * (s.polygon_0 : Int) ≤ 2147483647)
+    (outbox : Nat → Bool) :
+    Safe (C05.inside (ext_inside (points_inside_polygon.call s v)) (points_inside_polygon.call s v).nprint
+      (points_inside_polygon.call s v).npoints (points_inside_polygon.call s v).nvertices outbox) := by
+  unfold points_inside_polygon.asserts at ha
+  unfold points_inside_polygon.reductions at hr
+  obtain ⟨a1, a2, a3⟩ := ha
+  apply inside_safe <;> simp only [ext_inside, points_inside_polygon.call]
+  · omega
+  · exact h33
+  · push_cast; rw [a2]; omega
+  · push_cast; rw [a3]; omega
+  · omega
+  · omega
+  · omega
+  · exact h32
+
+theorem exclude_zero_area_boundary_wrapper (s : exclude_zero_area_boundary.Shapes)
+    (v : exclude_zero_area_boundary.Scalars) (ha : exclude_zero_area_boundary.asserts s v)
+    (hp : PyAlloc_exclude_zero s) :
+    Safe (excludeZeroArea (ext_exclude_zero (exclude_zero_area_boundary.call s v))
+      (exclude_zero_area_boundary.call s v).nval) := by
+  unfold exclude_zero_area_boundary.asserts at ha
+  unfold PyAlloc_exclude_zero at hp
+  apply excludeZeroArea_safe <;> simp only [ext_exclude_zero, exclude_zero_area_boundary.call]
+  · push_cast; rw [hp]; omega
+  · omega
+
+theorem delineate_river_wrapper (s : delineate_river.Shapes) (v : delineate_river.Scalars)
+    (ha : delineate_river.asserts s v) (hn : NumpySize s.flowdir_0 s.flowdir_1) (code fdir : Nat → Int) :
+    Safe (delineateRiver (ext_delineate_river (delineate_river.call s v)) (delineate_river.call s v).nrows
+      (delineate_river.call s v).ncols (delineate_river.call s v).nval (delineate_river.call s v).idxupstream
+      code fdir) := by
+  unfold delineate_river.asserts at ha
+  unfold NumpySize at hn
+  obtain ⟨a1, a2, a3, a4, a5⟩ := ha
+  apply delineateRiver_safe <;> simp only [ext_delineate_river, delineate_river.call]
+  · omega
+  · omega
+  · exact hn
+  · push_cast; omega
+  · have e0 : s.flowdircode_0 = 3 := by omega
+    have e1 : s.flowdircode_1 = 3 := by omega
+    rw [e0, e1]
+  · omega
+  · omega
+  · push_cast; rw [a4]; omega
+
+theorem flowpathlengths_wrapper (s : delineate_flowpathlengths_in_catchment.Shapes)
+    (v : delineate_flowpathlengths_in_catchment.Scalars)
+    (ha : delineate_flowpathlengths_in_catchment.asserts s v)
+    (hn : NumpySize s.flowdir_0 s.flowdir_1) (code fdir cells : Nat → Int) :
+    Safe (flowpathlengths (ext_flowpathlengths (delineate_flowpathlengths_in_catchment.call s v))
+      (delineate_flowpathlengths_in_catchment.call s v).nrows
+      (delineate_flowpathlengths_in_catchment.call s v).ncols
+      (delineate_flowpathlengths_in_catchment.call s v).nval
+      (delineate_flowpathlengths_in_catchment.call s v).idxcell_outlet code fdir cells) := by
+  unfold delineate_flowpathlengths_in_catchment.asserts at ha
+  unfold NumpySize at hn
+  obtain ⟨a1, a2, a3, a4⟩ := ha
+  apply flowpathlengths_safe <;>
+    simp only [ext_flowpathlengths, delineate_flowpathlengths_in_catchment.call]
+  · omega
+  · omega
+  · exact hn
+  · push_cast; omega
+  · have e0 : s.flowdircode_0 = 3 := by omega
+    have e1 : s.flowdircode_1 = 3 := by omega
+    rw [e0, e1]
+  · omega
+  · push_cast; rw [a4]; omega
+end wrappers
+
 end HydroVerif.C05
